@@ -278,6 +278,8 @@ class Interp:
             raise PyRaise("AttributeError", attr)
         if isinstance(base, (str, list, tuple, dict, set, int, float, SymSeq)) or hasattr(base, "_zpy"):
             return PyMethod(base, attr)
+        if getattr(base, "_zplain", False):
+            return getattr(base, attr)
         if isinstance(base, BoundMethod) or isinstance(base, Func):
             raise OutsideSubset(f"attribute {attr} of function")
         if base is None:
